@@ -163,7 +163,7 @@ def rule_c(ctx):
                 occ = [x for x in ast.walk(v) if isinstance(x, ast.Name) and x.id == het.params[1]]
                 both = bool(occ) and all(isinstance(getattr(x, "_parent", None), ast.Subscript) and x._parent.value is x and norm(x._parent.slice) == mk for x in occ)
                 masked_input = f"{het.params[1]}[{mk}]"
-            ctx.ob(R, het.qname, "mask is cached_labels == label, applied to both sides of the assignment", mask_def == f"self.cached_labels == {lab}" and both, mask_def, stores[0])
+            ctx.ob(R, het.qname, "mask is cached_labels == label, applied to both sides of the assignment", mask_def in (f"self.cached_labels == {lab}", f"{lab} == self.cached_labels") and both, mask_def, stores[0])
         if val is not None:
             def atom(n):
                 t = norm(n)
@@ -199,8 +199,13 @@ def rule_c(ctx):
     def ops(fn, p):
         out = []
         for c in ast.walk(fn.node):
-            if isinstance(c, ast.Compare) and norm(c.left) == p and len(c.ops) == 1:
-                out.append((type(c.ops[0]).__name__, "lower" if "lower" in norm(c.comparators[0]) else "upper"))
+            if isinstance(c, ast.Compare) and len(c.ops) == 1 and p in (norm(c.left), norm(c.comparators[0])):
+                # relation as seen from the signal (comparisons are stored in canonical `<` orientation)
+                if norm(c.left) == p:
+                    rel, bound = type(c.ops[0]).__name__, norm(c.comparators[0])
+                else:
+                    rel, bound = {"Lt": "Gt", "LtE": "GtE", "Gt": "Lt", "GtE": "LtE"}.get(type(c.ops[0]).__name__, type(c.ops[0]).__name__), norm(c.left)
+                out.append((rel, "lower" if "lower" in bound else "upper"))
         return sorted(set(out))
     oh, og = ops(h, h.params[1]), ops(g, g.params[1])
     ctx.ob(R, g.qname, "both variants use strict > lower and < upper", oh == og == [("Gt", "lower"), ("Lt", "upper")], f"homogeneous {oh}, heterogeneous {og}", g.node)
